@@ -613,7 +613,7 @@ func caseC03(c *Ctx) {
 		return
 	}
 	alpha := []int{alphaPlain, alphaFS}[c.Draw(2)]
-	model := genTree(c, genName(c, alpha), forestOpts{maxExtra: 9, alpha: alpha, maxDepth: 5, maxFan: 4})
+	model := genTree(c, genName(c, alpha), forestOpts{maxExtra: 9, alpha: alpha, maxDepth: 5, maxFan: 4, shapes: true})
 	op := genFromRootOp(c, false)
 	// --- program: a drawn Add order that builds the model
 	type pend struct {
